@@ -50,7 +50,7 @@ def _clone(d):
 
 
 def mk_indelmap(G):
-    def check(p0: int, p1: int, l0: int, l1: int, tail: int, j: int) -> bool:
+    def check(p0: int, p1: int, l0: int, l1: int, tail: int, j: int, tu: bool) -> bool:
         """
         pre: c08.pre_layout(G, p0, p1, 0, l0, l1, 0, tail)
         pre: j >= 0
@@ -61,12 +61,20 @@ def mk_indelmap(G):
 
         gp, gl, plen = c08.layout(G, p0, p1, 0, l0, l1, 0, tail)
         m = c08.mkmap(gp, gl, plen)
+        if tu:
+            m = m.with_termini_unknown()  # terminal gaps are 'unknown' (shown as ?), as Alignment.with_modified_termini makes them
+            if not W.reach("termini_unknown"):
+                return False
         d = _clone(m.to_rich_dict())
         r = deserialise_object(d) if W.PLAIN else L.IndelMap.from_rich_dict(d)
         if not W.reach("end"):
             return False
         if [x for x in r.gap_pos] != gp or [x for x in r.cum_gap_lengths] != c08.cum(gl) or r.parent_length != plen:
             return False
+        if bool(r.termini_unknown) != bool(tu):
+            return False
+        if [type(x).__name__ for x in r.spans] != [type(x).__name__ for x in m.spans]:
+            return False  # TerminalPadding vs _LostSpan: what the gap is displayed as
         if len(r) != len(m):
             return False
         if j < len(m):
@@ -212,7 +220,7 @@ def obligations(tier):
     for C in Cs:
         obs.append(Ob(f"sequence_roundtrip/C{C}", __name__, "mk_sequence", {"C": C}, timeout=900, twins=("end", "nonempty"), group="sequence"))
     for G in (0, 1, 2):
-        obs.append(Ob(f"indelmap/G{G}", __name__, "mk_indelmap", {"G": G}, timeout=900, group="maps"))
+        obs.append(Ob(f"indelmap/G{G}", __name__, "mk_indelmap", {"G": G}, timeout=900, twins=("end", "termini_unknown"), group="maps"))
     for kinds in ("S", "SS", "SLS", "LSL", "L"):
         obs.append(Ob(f"featuremap/{kinds}", __name__, "mk_featuremap", {"kinds": kinds}, timeout=900, group="maps"))
     from props import c09
